@@ -557,7 +557,18 @@ pub fn deviations(img: &[u8], l: &Layout) -> Vec<Deviation> {
             for c in [root_minis, l.minifat.len() - 1] {
                 if let Some(off) = imgck::minifat_cell_offset(l, c as u32) {
                     out.push(dev("minifat-longer-than-ministream", format!("cell {} = ENDOFCHAIN", c), vec![(off, le32(ENDOFCHAIN))]));
+                    // the surplus is documented as ignored, whatever it holds: a zero (zero padding,
+                    // reads as "next is mini sector 0"), a mini sector some chain already uses,
+                    // a number beyond the MiniFAT
+                    out.push(dev("minifat-longer-than-ministream", format!("cell {} = 0", c), vec![(off, le32(0))]));
+                    out.push(dev("minifat-longer-than-ministream", format!("cell {} = 1", c), vec![(off, le32(1))]));
+                    out.push(dev("minifat-longer-than-ministream", format!("cell {} = beyond", c), vec![(off, le32(l.minifat.len() as u32 + 7))]));
                 }
+            }
+            // ... and the whole surplus zero-padded
+            let edits: Vec<(usize, Vec<u8>)> = (root_minis..l.minifat.len()).filter_map(|c| imgck::minifat_cell_offset(l, c as u32)).map(|off| (off, le32(0))).collect();
+            if edits.len() > 1 {
+                out.push(dev("minifat-longer-than-ministream", "whole surplus = 0".into(), edits));
             }
         }
     }
